@@ -234,7 +234,7 @@ R("eq-c20-plane-refactored", U, "    rs = rho / (t_mm / 1e3)\n    return (rs * l
 FIX_REVERT_FIRES = {
     "F1": ["C03", "C01", "C02"], "F2": ["C11"], "F3": ["C12"], "F4": ["C17"], "F5": ["C15"], "F6": ["C14"],
     "F7": ["C16"], "F8": ["C07", "C16"], "F9": ["C05", "C08", "C01"], "F10": ["C08"], "F11": ["C02"],
-    "F12": ["C15"], "F13": ["C14"],
+    "F12": ["C15"], "F13": ["C14"], "F14": ["C16"],
 }
 
 
